@@ -474,7 +474,8 @@ def manifest():
             "engine": "go-rapid-harness",
             "level_claimed": {"category": cfg["level"], "text": cfg["level_text"], "design_ref": cfg.get("design_ref", "DESIGN.md §4 " + pid)},
             "level_note": cfg["level_note"],
-            "technique": cfg["technique"],
+            "technique": cfg["technique"] + ("; the thorough tier adds a native coverage-guided `go test -fuzz` campaign (%s) with the check's oracle inside the target"
+                                             % ", ".join(t for t, _ in cfg["fuzz"]) if cfg.get("fuzz") and "go test -fuzz" not in cfg["technique"] else ""),
         })
     m = {
         "version": 1,
